@@ -246,6 +246,20 @@ def include_and_doc_layouts():
         if g != want:
             return {"confirmed": True, "input": {"source": one if label.startswith("one") else semi, "decl.inc": inc}, "actual": g, "expected": want,
                     "how": f"real parser, {label}: (name, documentation) of the module's variables"}
+    # an include file that holds no statement (comments only) leaves the statements around it alone, wherever its INCLUDE line stands
+    for text, wantv in (("module m\n  implicit none\n  integer :: a\n  include 'empty.inc'\n  integer :: c\nend module m\n", ["a", "c"]),
+                        ("module m\n  implicit none\n  integer :: a; include 'empty.inc'; include 'decl.inc'\n  include 'empty.inc'\nend module m\n", ["a", "b"])):
+        realrun.reset_names()
+        with realrun.project_dir({"m.f90": text, "empty.inc": "! only a comment\n\n", "decl.inc": "integer :: b\n"}) as d:
+            try:
+                with contextlib.redirect_stdout(io.StringIO()), contextlib.redirect_stderr(io.StringIO()):
+                    f = sf.FortranSourceFile(os.path.join(d, "m.f90"), st.ProjectSettings(preprocess=False, quiet=True, warn=False))
+                gotv = [v.name for v in f.modules[0].variables]
+            except Exception as e:
+                gotv = f"{type(e).__name__}: {e}"
+        if gotv != wantv:
+            return {"confirmed": True, "input": {"source": text, "empty.inc": "! only a comment", "decl.inc": "integer :: b"}, "actual": gotv, "expected": wantv,
+                    "how": "real parser: variables of a module that includes a file without statements"}
     src = ("module m\n  use iso_fortran_env\n  !! Set mode to \"fast\" or 'safe', don't mix\n  implicit none\n  !! it's 'quoted' again\n  integer :: x\nend module m\n")
     try:
         m = realrun.parse_source(src).modules[0]
